@@ -8,6 +8,11 @@ use crate::linalg::{
 /// algorithm.
 pub fn cholesky(a: &[f64]) -> Vec<f64> {
     assert!(is_symmetric(a));
+    try_cholesky(a).expect("matrix not positive definite")
+}
+
+/// Cholesky factor of a symmetric matrix, or `None` if the matrix is not positive definite.
+pub(crate) fn try_cholesky(a: &[f64]) -> Option<Vec<f64>> {
     let n = is_square(a).unwrap();
 
     let mut l = vec![0.; n * n];
@@ -17,14 +22,18 @@ pub fn cholesky(a: &[f64]) -> Vec<f64> {
             let s = dot(&l[(j * n)..(j * n + j)], &l[(i * n)..(i * n + j)]);
 
             if i == j {
-                l[i * n + j] = (a[i * n + i] - s).sqrt();
+                let d = a[i * n + i] - s;
+                if !(d > 0.) {
+                    return None;
+                }
+                l[i * n + j] = d.sqrt();
             } else {
                 l[i * n + j] = (a[i * n + j] - s) / l[j * n + j];
             }
         }
     }
 
-    l
+    Some(l)
 }
 
 /// Solves the system Lx=b, where L is a lower triangular matrix (e.g., a Cholesky decomposed
